@@ -332,9 +332,9 @@ func VerifDump(c *Cache[int, int]) (fwd, bwd [][2]int, n int) {
 	type op struct{ add bool; k, v int }
 	var traces [][]op
 	var caps []int
-	for t := 0; t < 120; t++ {
+	for t := 0; t < 80; t++ {
 		cap := 1 + t%4
-		n := 4 + r.Intn(14)
+		n := 4 + r.Intn(10)
 		var ops []op
 		for i := 0; i < n; i++ {
 			ops = append(ops, op{r.Intn(2) == 0, r.Intn(cap + 2), r.Intn(9)})
